@@ -1,1 +1,217 @@
-/-! # C09 — property theorems (stub: not built yet) -/
+import PymocaVerif.Lemmas.Connect
+import Mathlib.Algebra.Field.Defs
+/-!
+# C09 — connections produce exactly the connection-set equations
+
+Property theorems only (definitions and helper lemmas live in `Model/Connect.lean` and
+`Lemmas/Connect.lean`).  `Conn es` is the equivalence closure of an edge list, `Touched es k`
+says `k` is an end of an edge, `IsComponent es S` says the duplicate-free list `S` is exactly
+the connected component of a touched key.  All statements hold for every edge list, in every
+order, of every length.
+-/
+namespace PymocaVerif.Connect
+
+/-! ## Graph part (any key type) -/
+
+/-- After processing *any* edge list, the distinct values of the association list are exactly the
+    connected components of the edge graph on the touched keys: every value is a duplicate-free
+    component, every touched key lies in one of them, and no two of them share a key (so each
+    component occurs exactly once and gets exactly one flow-sum equation).  Chains, stars, cycles,
+    duplicate edges, self edges and merges of two previously separate sets are all covered. -/
+theorem sets_are_components {κ : Type} [DecidableEq κ] (es : List (κ × κ)) :
+    (∀ S ∈ distinctSets (connectAll [] es), IsComponent es S) ∧
+    (∀ k, Touched es k → ∃ S ∈ distinctSets (connectAll [] es), k ∈ S) ∧
+    (distinctSets (connectAll [] es)).Pairwise (fun S T => ∀ k, k ∈ S → k ∉ T) := by
+  have inv := (MapInv.empty (κ := κ)).connectAll es
+  simp only [List.nil_append] at inv
+  exact inv.sets
+
+-- non-vacuity: two pairs built separately and merged by a third edge between non-first members
+example : distinctSets (connectAll ([] : FlowMap Nat) [(1, 2), (3, 4), (4, 2), (5, 5)])
+    = [[3, 4, 1, 2], [5]] := by decide
+
+/-- All members of a connection set hold the same list *object* (value): looking a member up
+    gives the list it is a member of.  This is what makes the re-pointing loop of the code
+    necessary and sufficient. -/
+theorem members_share_their_set {κ : Type} [DecidableEq κ] (es : List (κ × κ)) (k k' : κ)
+    (S : List κ) (h : get? (connectAll [] es) k = some S) (hk' : k' ∈ S) :
+    get? (connectAll [] es) k' = some S := by
+  have inv := (MapInv.empty (κ := κ)).connectAll es
+  simp only [List.nil_append] at inv
+  exact inv.shared k S k' h hk'
+
+example : get? (connectAll ([] : FlowMap Nat) [(1, 2), (3, 4), (4, 2)]) 1 = some [3, 4, 1, 2] ∧
+    (2 : Nat) ∈ [3, 4, 1, 2] := by decide
+
+/-! ## The pass over a flat class -/
+
+/-- The connection sets the pass ends with are exactly the connected components of the
+    flow-level edge graph (keys = flat flow variable with its inside/outside face). -/
+theorem final_sets_are_components (inp : Input) (sets : List (List Key))
+    (h : finalSets inp = .ok sets) :
+    (∀ S ∈ sets, IsComponent (flowEdges inp.edges) S) ∧
+    (∀ k, Touched (flowEdges inp.edges) k → ∃ S ∈ sets, k ∈ S) ∧
+    sets.Pairwise (fun S T => ∀ k, k ∈ S → k ∉ T) := by
+  cases hx : expand inp with
+  | error x =>
+    simp only [expand] at hx
+    simp only [finalSets] at h
+    split at hx
+    · cases hx
+    · rename_i x' hx'
+      rw [hx'] at h
+      cases h
+  | ok eqs =>
+    obtain ⟨_, st, hst, _, _, inv⟩ := expand_ok inp eqs hx
+    simp only [finalSets, hst] at h
+    cases h
+    exact inv.sets
+
+example : finalSets exInput = .ok [[("c1.a.i", true), ("c2.a.i", true), ("o.i", false)]] := by decide
+
+/-- The pass raises (the code's `Exception("Unsupported connector variable prefixes")`) exactly
+    when some connector variable of some connect clause has a prefix list outside the four
+    recognised shapes; otherwise it returns equations. -/
+theorem expand_raises_iff (inp : Input) :
+    (∃ x, expand inp = .error x) ↔ ¬ Supported inp.edges := by
+  constructor
+  · rintro ⟨x, hx⟩ hs
+    obtain ⟨st, h1, _⟩ := stepEdges_ok inp.edges (St.init inp) hs
+    simp [expand, h1] at hx
+  · intro hs
+    obtain ⟨x, hx⟩ := stepEdges_bad inp.edges (St.init inp) hs
+    exact ⟨x, by simp [expand, hx]⟩
+
+example : ¬ Supported [⟨"", ["a"], ["b"], [⟨"d", ["discrete"]⟩]⟩] := by
+  intro h
+  exact h ⟨"", ["a"], ["b"], [⟨"d", ["discrete"]⟩]⟩ (List.mem_singleton.2 rfl) ⟨"d", ["discrete"]⟩
+    (List.mem_singleton.2 rfl) (by decide)
+
+/-! ## Potentials (values of any type) -/
+
+/-- One equality per edge is as strong as equality throughout every connected component. -/
+theorem potential_equiv {α β : Type} (es : List (α × α)) (σ : α → β) :
+    (∀ p ∈ es, σ p.1 = σ p.2) ↔ (∀ a b, Conn es a b → σ a = σ b) := by
+  constructor
+  · intro h a b c
+    exact conn_eq_of_edges es σ h c
+  · intro h p hp
+    exact h p.1 p.2 (.edge hp)
+
+example : Conn [((1 : Nat), 2), (3, 2)] 1 3 :=
+  (Conn.edge (a := 1) (b := 2) (by simp)).trans (Conn.edge (a := 3) (b := 2) (by simp)).symm
+
+/-! ## Algebra part (values in any additive commutative group, e.g. any field) -/
+
+section Algebra
+variable {K : Type} [AddCommGroup K]
+
+/-- The equation emitted for a connection set states: (sum over inside members) − (sum over
+    outside members) = 0; this includes the all-outside form, which is written without minus
+    signs and is the same equation multiplied by −1. -/
+theorem flow_sum_sign (S : List Key) (σ : String → K) :
+    (sumEqn S).holds σ ↔
+      ((S.filter fun k => k.2).map fun k => σ k.1).sum -
+      ((S.filter fun k => !k.2).map fun k => σ k.1).sum = 0 := by
+  rw [sumEqn_holds, signed_sum_split]
+
+example : sumEqn [("o1.i", false), ("o2.i", false)] = .sum [("o1.i", false), ("o2.i", false)] ∧
+    sumEqn [("o.i", false), ("c.a.i", true)] = .sum [("o.i", true), ("c.a.i", false)] := by decide
+
+/-- The pass emits `f = 0` exactly for the flow symbols no end of a connect clause refers to
+    (under either face). -/
+theorem unconnected_zero (inp : Input) (eqs : List Eqn) (h : expand inp = .ok eqs) (f : String) :
+    Eqn.zero f ∈ eqs ↔ f ∈ inp.flowSyms ∧ ∀ b, ¬ Touched (flowEdges inp.edges) (f, b) := by
+  obtain ⟨_, st, _, he, adv, _⟩ := expand_ok inp eqs h
+  subst he
+  rw [touched_key_iff]
+  have hd := adv.disc f
+  simp only [St.init] at hd
+  rw [← hd]
+  simp only [finish, List.mem_append, List.mem_map]
+  constructor
+  · rintro ((h1 | ⟨S, _, h1⟩) | ⟨n, hn, h1⟩)
+    · rw [adv.eqs] at h1
+      simp [St.init] at h1
+    · unfold sumEqn at h1
+      split at h1 <;> cases h1
+    · cases h1
+      exact hn
+  · intro h1
+    exact Or.inr ⟨f, h1, rfl⟩
+
+example : ∃ eqs, expand exInput = .ok eqs ∧ Eqn.zero "c1.b.i" ∈ eqs ∧ Eqn.zero "c1.a.i" ∉ eqs := by
+  refine ⟨_, rfl, ?_, ?_⟩ <;> decide
+
+/-- The equations derived by the pass have exactly the solutions of the reference connection
+    semantics — for every flat class the pass accepts, whatever the number, order and shape of
+    its connect clauses. -/
+theorem solutions_equal (inp : Input) (eqs : List Eqn) (h : expand inp = .ok eqs)
+    (σ : String → K) : Sol eqs σ ↔ RefSol inp σ := by
+  obtain ⟨_, st, _, he, adv, inv⟩ := expand_ok inp eqs h
+  subst he
+  obtain ⟨comp, cover, _⟩ := inv.sets
+  unfold finish
+  rw [sol_append, sol_append]
+  -- the three groups of equations, one by one
+  have hp : Sol st.eqs σ ↔ ∀ p ∈ potEdges inp.edges, σ p.1 = σ p.2 := by
+    rw [adv.eqs]
+    simp only [St.init, List.nil_append, Sol, List.mem_map]
+    constructor
+    · intro h1 p hp
+      exact h1 _ ⟨p, hp, rfl⟩
+    · rintro h1 e ⟨p, hp, rfl⟩
+      exact h1 p hp
+  have hf : Sol ((distinctSets st.fc).map sumEqn) σ ↔
+      ∀ S, IsComponent (flowEdges inp.edges) S → (S.map (signed σ)).sum = 0 := by
+    simp only [Sol, List.mem_map]
+    constructor
+    · intro h1 S' hS'
+      obtain ⟨nd', k0, t0, m0⟩ := hS'
+      obtain ⟨S, hS, hk0⟩ := cover k0 t0
+      obtain ⟨nd, k1, _, m1⟩ := comp S hS
+      have hperm : S.Perm S' := by
+        rw [List.perm_ext_iff_of_nodup nd nd']
+        intro k
+        rw [m1, m0]
+        have c10 : Conn (flowEdges inp.edges) k1 k0 := (m1 k0).1 hk0
+        constructor
+        · exact fun c => c10.symm.trans c
+        · exact fun c => c10.trans c
+      have := (sumEqn_holds S σ).1 (h1 _ ⟨S, hS, rfl⟩)
+      rw [← perm_sum (hperm.map (signed σ))]
+      exact this
+    · rintro h1 e ⟨S, hS, rfl⟩
+      exact (sumEqn_holds S σ).2 (h1 S (comp S hS))
+  have hz : Sol (st.disc.map Eqn.zero) σ ↔
+      ∀ f ∈ inp.flowSyms, (∀ b, ¬ Touched (flowEdges inp.edges) (f, b)) → σ f = 0 := by
+    simp only [Sol, List.mem_map]
+    constructor
+    · intro h1 f hf ht
+      have : f ∈ st.disc := (adv.disc f).2 ⟨hf, (touched_key_iff _ f).1 ht⟩
+      exact h1 _ ⟨f, this, rfl⟩
+    · rintro h1 e ⟨f, hf, rfl⟩
+      have := (adv.disc f).1 hf
+      exact h1 f this.1 ((touched_key_iff _ f).2 this.2)
+  rw [hp, hf, hz, potential_equiv]
+  constructor
+  · rintro ⟨⟨a, b⟩, c⟩
+    exact ⟨a, b, c⟩
+  · intro r
+    exact ⟨⟨r.potential, r.flow⟩, r.unconnected⟩
+
+-- non-vacuity: the small circuit is accepted and yields two potential equations, one mixed
+-- inside/outside flow sum and one zero
+example : expand exInput = .ok [.pot "c1.a.v" "c2.a.v", .pot "o.v" "c1.a.v",
+    .sum [("c1.a.i", false), ("c2.a.i", false), ("o.i", true)], .zero "c1.b.i"] := by decide
+
+end Algebra
+
+/-- `solutions_equal` for the case the property names: values in a field. -/
+theorem solutions_equal_field {F : Type} [Field F] (inp : Input) (eqs : List Eqn)
+    (h : expand inp = .ok eqs) (σ : String → F) : Sol eqs σ ↔ RefSol inp σ :=
+  solutions_equal inp eqs h σ
+
+example : ∃ eqs, expand exInput = .ok eqs := ⟨_, rfl⟩
+
+end PymocaVerif.Connect
